@@ -169,7 +169,9 @@ CHECKS = {
              "candidacy carrying its own start time and external address exactly once, or win at once when alone) exactly when the candidate is younger, and ignore its "
              "own candidacy; the REAL start_election / start_new_election terminate (both wait loops have a decreasing measure bounded by the election timeout, with the "
              "node's role allowed to change at every sleep) and never leave the node undecided unless the candidacy could not be handed over; election_win makes the node "
-             "Primary and tells the supervisor. The bounded native sweep runs the same calls on real Databases objects (1-2 members, 3 roles, boundary start times).",
+             "Primary and tells the supervisor. The member table of ONE node (unit members: the REAL add_cluster_member with its demotion loop, promote_member, "
+             "remove_cluster_member) never names two primaries: adding or promoting a primary turns every other member into a secondary. "
+             "The bounded native sweep runs the same calls on real Databases objects (1-2 members, 3 roles, boundary start times).",
         level_note="NOT decided: 'exactly one primary, the oldest, and all agree' over 2-3 nodes and all message interleavings - a multi-process invariant no single "
                    "call's contract states; the SetPrimary/Join/Leave arms and the supervisor's set-primary broadcast. Sequential model with interference only at "
                    "thread::sleep. A change that breaks the protocol without changing what one call does is not detected.",
